@@ -19,7 +19,7 @@ pub fn property() -> Property {
     Property {
         id: "C10",
         level: "exploration",
-        rule: "family `verdict` (Lab-M, virtual time): 1-6 create_proxy_stream calls racing on one in-memory session; for every call the scripted server's answer plan is generated: success / error text (ASCII, UTF-8, invalid UTF-8, 1 byte) / none, at 0, 1 ms, 29.999 s, 30 s, 30.001 s after the SYN, optionally duplicated (ok,err / err,ok / ok,ok), optionally preceded by answers addressed to another pending id or to an unknown id; optional session death (peer EOF / read error / Alert) at a generated instant; ServerSettings v=1/2/absent. A reference verdict function of the answer timeline says what each call must return and when. Non-trivial = an answer within 1 ms of the deadline, or duplicated/stray answers, or >= 2 racing opens, or death during the wait. Distinct = distinct serialized case. Three cases in ten start their calls without waiting for each other's SYN, over a client->server transport of 16 / 64 / unbounded capacity and with generated pre-emptions at the H1 points, so that open_stream calls overlap; which id belongs to which call is read from the destination each stream carries (port 80+i), an id carrying two destinations or a call without an id of its own is a violation. Family `front` (Lab-S, shared with C07/C16): requests through the real SOCKS5 and HTTP front-ends and the real client to a reference server that accepts, refuses (ordinary / unusual reason text), drops the connection on SYN or rejects the password: the application is told 'succeeded' / 200 only when the server accepted the stream, and a failure otherwise.",
+        rule: "family `verdict` (Lab-M, virtual time): 1-6 create_proxy_stream calls racing on one in-memory session; for every call the scripted server's answer plan is generated: success / error text (ASCII, UTF-8, invalid UTF-8, 1 byte) / none, at 0, 1 ms, 29.999 s, 30 s, 30.001 s after the SYN, optionally duplicated (ok,err / err,ok / ok,ok), optionally preceded by answers addressed to another pending id or to an unknown id; optional session death (peer EOF / read error / Alert) at a generated instant; ServerSettings v=1/2/absent. A reference verdict function of the answer timeline says what each call must return and when. Non-trivial = an answer within 1 ms of the deadline, or duplicated/stray answers, or >= 2 racing opens, or death during the wait. Distinct = distinct serialized case. Three cases in ten start their calls without waiting for each other's SYN, over a client->server transport of 16 / 64 / unbounded capacity and with generated pre-emptions at the H1 points, so that open_stream calls overlap; which id belongs to which call is read from the destination each stream carries (port 80+i), an id carrying two destinations or a call without an id of its own is a violation. Family `front` (Lab-S, shared with C07/C16): requests through the real SOCKS5 and HTTP front-ends and the real client to a reference server that accepts, refuses (ordinary / unusual reason text), drops the connection on SYN or rejects the password: the application is told 'succeeded' / 200 only when the server accepted the stream, and a failure otherwise. One case in seven (without a death, sequential start) stalls the link 100 / 5000 / 29000 ms after the calls were made - the scripted server stops reading, no reset - while another stream of the session uploads 2 MB: the uploader sits in its write holding the session's write path; answers still arrive; every call must still complete as the model says.",
         assumptions: vec![
             "tokio paused clock / current-thread scheduler; the 30 s SYNACK deadline is the documented bound",
             "H3 verif_session_pool to place an in-memory session in the real client's pool",
